@@ -252,7 +252,8 @@ def _tb_in_library(tb):
 
 
 def write_replay(ctx, case, msg, detail):
-    d = os.path.join(repo.VERIF_ROOT, "replays")
+    # runs against another tree than /repo (scratch copies with a seeded change or a mutant) keep their replays apart
+    d = os.path.join(repo.VERIF_ROOT, "replays") if repo.REPO_ROOT == "/repo" else os.path.join(repo.VERIF_ROOT, "replays", "other-tree")
     os.makedirs(d, exist_ok=True)
     path = os.path.join(d, f"{ctx.pid}-{ctx.seed}-{case.workload}-{case.index}.json")
     body = {
